@@ -19,7 +19,7 @@ RULE = (
     "result index tuple, screen hash); non-trivial = result is neither empty nor the full parent"
 )
 ASSUMPTIONS = ["Plate.merge (documented to mutate the parent) is not part of the composition language"]
-REQUIRED = {"nodes_checked": {"quick": 9000, "thorough": 150000}, "alias_rechecks": {"quick": 100000, "thorough": 1500000}, "cross_parent_refusals": {"quick": 300, "thorough": 5000}}
+REQUIRED = {"parents_with_rows_marked_observed": {"quick": 200, "thorough": 3000}, "nodes_checked": {"quick": 9000, "thorough": 150000}, "alias_rechecks": {"quick": 100000, "thorough": 1500000}, "cross_parent_refusals": {"quick": 300, "thorough": 5000}}
 
 ATTRS = ["plate_ids", "sample_ids", "treatment_ids", "sample_names", "treatment_names", "treatment_doses", "observations", "observation_mask"]
 
@@ -99,11 +99,33 @@ def run_shard(rec, tier, seed, shard, nshards):
 
         n_nodes = int(rng.integers(15, 41))
         for ni in range(n_nodes):
-            op = str(rng.choice(["subset_screen", "subset_view", "subset_view", "combine", "concat", "invert", "get_plate", "plates", "observed", "unobserved", "to_screen", "unique", "cross"]))
+            op = str(rng.choice(["subset_screen", "subset_view", "subset_view", "combine", "concat", "invert", "get_plate", "plates", "observed", "unobserved", "observed", "to_screen", "unique", "cross", "mark_rows_observed"]))
             pi = int(rng.integers(len(parents)))
             P = parents[pi]
             try:
-                if op == "subset_screen":
+                if op == "mark_rows_observed":
+                    # the caller marks an arbitrary selection observed (not whole plates): every view reads through
+                    # to the parent, and the observed / unobserved views follow the mask row by row
+                    #   done on a private copy of the parent: a selection that cuts through plates leaves a screen that
+                    #   the constructor would refuse, so nothing else in this history is asked to cope with it
+                    from batchie.data import Screen as _Screen
+
+                    Q = _Screen(treatment_names=P.treatment_names.copy(), treatment_doses=P.treatment_doses.copy(), sample_names=P.sample_names.copy(), plate_names=P.plate_names.copy(), observations=P.observations.copy(), observation_mask=P.observation_mask.copy(), control_treatment_name=P.control_treatment_name)
+                    m = _mask(rng, Q.size)
+                    if not m.any():
+                        continue
+                    Q.set_observed(m, rng.random(int(m.sum())) + 3.0)
+                    rec.count("parents_with_rows_marked_observed")
+                    qm = np.asarray(Q.observation_mask)
+                    for which in ("observed", "unobserved"):
+                        want = np.flatnonzero(qm if which == "observed" else ~qm)
+                        res = Q.subset_observed() if which == "observed" else Q.subset_unobserved()
+                        rec.count("nodes_checked")
+                        if want.size == 0:
+                            rec.check(res is None, "C14/mask-split/expected-none", "%s view of an empty selection is not None" % which)
+                        elif rec.check(res is not None, "C14/mask-split/none", "%s view is None although %d rows qualify" % (which, want.size)):
+                            check_view(rec, res, Q, tuple(int(x) for x in want), "subset_%s after marking rows observed" % which, light=True)
+                elif op == "subset_screen":
                     m = _mask(rng, P.size)
                     add(P.subset(m), pi, tuple(np.flatnonzero(m)), 1, "Screen.subset")
                 elif op == "subset_view":
